@@ -59,6 +59,7 @@ type Type struct {
 	File      *File
 	Local     bool // a function-local type that merely shares a name (decoy)
 	DocLines  []string // rendered doc comment (kept so that a twin declaration is byte-identical)
+	Grouped   int      // 0 undecided, 1 plain declaration, 2 inside a type ( ... ) group
 }
 
 type Func struct {
